@@ -149,5 +149,5 @@ func writeFailEvidence(verif, prop, tier string, seed int64, start time.Time, ms
 }
 
 func init() {
-	claim("C04", "W1", "M1", "F1", "F2", "F3", "W2", "W4")
+	claim("C04", "W1", "M1", "F1", "F2", "F3", "W2", "W4", "W5")
 }
